@@ -1,1 +1,296 @@
-// kani harnesses (included from /repo under cfg(kani))
+// C25-O4: WAL record encode_body/decode_body round trips; C17-O4 / C25-O5: decode_body never panics on any body.
+// Included from /repo/nervusdb-storage/src/wal.rs under cfg(kani).
+use super::*;
+
+fn roundtrip(r: WalRecord) {
+    let body = r.encode_body();
+    let ok = match &body {
+        Ok(b) => {
+            let d = WalRecord::decode_body(b);
+            let same = match &d {
+                Ok(x) => *x == r,
+                Err(_) => false,
+            };
+            std::mem::forget(d);
+            same
+        }
+        Err(_) => false,
+    };
+    std::mem::forget((body, r));
+    kani::cover!(true, "witness: reached");
+    assert!(ok, "wal record: decode_body(encode_body(r)) == r");
+}
+
+macro_rules! rt {
+    ($name:ident, $rec:expr) => {
+        #[kani::proof]
+        #[kani::unwind(40)]
+        fn $name() {
+            roundtrip($rec);
+        }
+    };
+}
+rt!(c25_o4_q_rt_begin, WalRecord::BeginTx { txid: kani::any() });
+rt!(c25_o4_q_rt_commit, WalRecord::CommitTx { txid: kani::any() });
+rt!(c25_o4_q_rt_page_free, WalRecord::PageFree { page_id: kani::any() });
+rt!(c25_o4_q_rt_create_node, WalRecord::CreateNode { external_id: kani::any(), label_id: kani::any(), internal_id: kani::any() });
+rt!(c25_o4_q_rt_add_label, WalRecord::AddNodeLabel { node: kani::any(), label_id: kani::any() });
+rt!(c25_o4_q_rt_remove_label, WalRecord::RemoveNodeLabel { node: kani::any(), label_id: kani::any() });
+rt!(c25_o4_q_rt_create_edge, WalRecord::CreateEdge { src: kani::any(), rel: kani::any(), dst: kani::any() });
+rt!(c25_o4_q_rt_tombstone_node, WalRecord::TombstoneNode { node: kani::any() });
+rt!(c25_o4_q_rt_tombstone_edge, WalRecord::TombstoneEdge { src: kani::any(), rel: kani::any(), dst: kani::any() });
+rt!(c25_o4_q_rt_checkpoint, WalRecord::Checkpoint { up_to_txid: kani::any(), epoch: kani::any(), properties_root: kani::any(), stats_root: kani::any() });
+rt!(c25_o4_q_rt_manifest_0, WalRecord::ManifestSwitch { epoch: kani::any(), segments: Vec::new(), properties_root: kani::any(), stats_root: kani::any() });
+rt!(c25_o4_t_rt_manifest_1, WalRecord::ManifestSwitch { epoch: kani::any(), segments: vec![SegmentPointer { id: kani::any(), meta_page_id: kani::any() }], properties_root: kani::any(), stats_root: kani::any() });
+rt!(c25_o4_t_rt_manifest_2, WalRecord::ManifestSwitch { epoch: kani::any(), segments: vec![SegmentPointer { id: kani::any(), meta_page_id: kani::any() }, SegmentPointer { id: kani::any(), meta_page_id: kani::any() }], properties_root: kani::any(), stats_root: kani::any() });
+
+fn ascii<const N: usize>() -> String {
+    let a: [u8; N] = kani::any();
+    let mut i = 0;
+    while i < N {
+        kani::assume(a[i] < 0x80);
+        i += 1;
+    }
+    unsafe { String::from_utf8_unchecked(a.to_vec()) }
+}
+rt!(c25_o4_q_rt_create_label_0, WalRecord::CreateLabel { name: ascii::<0>(), label_id: kani::any() });
+rt!(c25_o4_t_rt_create_label_2, WalRecord::CreateLabel { name: ascii::<2>(), label_id: kani::any() });
+rt!(c25_o4_t_rt_remove_node_prop_1, WalRecord::RemoveNodeProperty { node: kani::any(), key: ascii::<1>() });
+rt!(c25_o4_t_rt_remove_edge_prop_1, WalRecord::RemoveEdgeProperty { src: kani::any(), rel: kani::any(), dst: kani::any(), key: ascii::<1>() });
+rt!(c25_o4_t_rt_set_node_prop_int, WalRecord::SetNodeProperty { node: kani::any(), key: ascii::<1>(), value: PropertyValue::Int(kani::any()) });
+rt!(c25_o4_a_rt_set_edge_prop_bool, WalRecord::SetEdgeProperty { src: kani::any(), rel: kani::any(), dst: kani::any(), key: ascii::<1>(), value: PropertyValue::Bool(kani::any()) });
+
+// ---------------------------------------------------------------- decode_body never panics
+/// record type byte concrete, every other body byte symbolic
+fn dec_body<const N: usize>(ty: u8) {
+    let mut b: [u8; N] = kani::any();
+    if N > 0 {
+        b[0] = ty;
+    }
+    let r = WalRecord::decode_body(&b);
+    std::mem::forget(r);
+    kani::cover!(true, "witness: decode_body returned");
+}
+/// variable-length records: one embedded u32 length/count field at `off` (body offset) is concrete
+fn dec_body_len<const N: usize>(ty: u8, off: usize, len: u32) {
+    let mut b: [u8; N] = kani::any();
+    b[0] = ty;
+    let l = len.to_le_bytes();
+    b[off] = l[0];
+    b[off + 1] = l[1];
+    b[off + 2] = l[2];
+    b[off + 3] = l[3];
+    let r = WalRecord::decode_body(&b);
+    std::mem::forget(r);
+    kani::cover!(true, "witness: decode_body returned");
+}
+macro_rules! dec {
+    ($name:ident, $f:ident, $n:expr, $($arg:expr),*) => {
+        #[kani::proof]
+        #[kani::unwind(48)]
+        fn $name() {
+            $f::<$n>($($arg),*);
+        }
+    };
+}
+
+dec!(c17_o4_t_ty1_n0, dec_body, 0, 1);
+dec!(c17_o4_q_ty1_n1, dec_body, 1, 1);
+dec!(c17_o4_t_ty1_n2, dec_body, 2, 1);
+dec!(c17_o4_q_ty1_n8, dec_body, 8, 1);
+dec!(c17_o4_q_ty1_n9, dec_body, 9, 1);
+dec!(c17_o4_q_ty1_n10, dec_body, 10, 1);
+dec!(c17_o4_t_ty2_n0, dec_body, 0, 2);
+dec!(c17_o4_q_ty2_n1, dec_body, 1, 2);
+dec!(c17_o4_t_ty2_n2, dec_body, 2, 2);
+dec!(c17_o4_q_ty2_n8, dec_body, 8, 2);
+dec!(c17_o4_q_ty2_n9, dec_body, 9, 2);
+dec!(c17_o4_q_ty2_n10, dec_body, 10, 2);
+dec!(c17_o4_t_ty4_n0, dec_body, 0, 4);
+dec!(c17_o4_q_ty4_n1, dec_body, 1, 4);
+dec!(c17_o4_t_ty4_n2, dec_body, 2, 4);
+dec!(c17_o4_q_ty4_n8, dec_body, 8, 4);
+dec!(c17_o4_q_ty4_n9, dec_body, 9, 4);
+dec!(c17_o4_q_ty4_n10, dec_body, 10, 4);
+dec!(c17_o4_t_ty5_n0, dec_body, 0, 5);
+dec!(c17_o4_q_ty5_n1, dec_body, 1, 5);
+dec!(c17_o4_t_ty5_n2, dec_body, 2, 5);
+dec!(c17_o4_q_ty5_n16, dec_body, 16, 5);
+dec!(c17_o4_q_ty5_n17, dec_body, 17, 5);
+dec!(c17_o4_q_ty5_n18, dec_body, 18, 5);
+dec!(c17_o4_t_ty16_n0, dec_body, 0, 16);
+dec!(c17_o4_q_ty16_n1, dec_body, 1, 16);
+dec!(c17_o4_t_ty16_n2, dec_body, 2, 16);
+dec!(c17_o4_q_ty16_n8, dec_body, 8, 16);
+dec!(c17_o4_q_ty16_n9, dec_body, 9, 16);
+dec!(c17_o4_q_ty16_n10, dec_body, 10, 16);
+dec!(c17_o4_t_ty17_n0, dec_body, 0, 17);
+dec!(c17_o4_q_ty17_n1, dec_body, 1, 17);
+dec!(c17_o4_t_ty17_n2, dec_body, 2, 17);
+dec!(c17_o4_q_ty17_n8, dec_body, 8, 17);
+dec!(c17_o4_q_ty17_n9, dec_body, 9, 17);
+dec!(c17_o4_q_ty17_n10, dec_body, 10, 17);
+dec!(c17_o4_t_ty6_n0, dec_body, 0, 6);
+dec!(c17_o4_q_ty6_n1, dec_body, 1, 6);
+dec!(c17_o4_t_ty6_n2, dec_body, 2, 6);
+dec!(c17_o4_q_ty6_n12, dec_body, 12, 6);
+dec!(c17_o4_q_ty6_n13, dec_body, 13, 6);
+dec!(c17_o4_q_ty6_n14, dec_body, 14, 6);
+dec!(c17_o4_t_ty7_n0, dec_body, 0, 7);
+dec!(c17_o4_q_ty7_n1, dec_body, 1, 7);
+dec!(c17_o4_t_ty7_n2, dec_body, 2, 7);
+dec!(c17_o4_q_ty7_n4, dec_body, 4, 7);
+dec!(c17_o4_q_ty7_n5, dec_body, 5, 7);
+dec!(c17_o4_q_ty7_n6, dec_body, 6, 7);
+dec!(c17_o4_t_ty8_n0, dec_body, 0, 8);
+dec!(c17_o4_q_ty8_n1, dec_body, 1, 8);
+dec!(c17_o4_t_ty8_n2, dec_body, 2, 8);
+dec!(c17_o4_q_ty8_n12, dec_body, 12, 8);
+dec!(c17_o4_q_ty8_n13, dec_body, 13, 8);
+dec!(c17_o4_q_ty8_n14, dec_body, 14, 8);
+dec!(c17_o4_t_ty10_n0, dec_body, 0, 10);
+dec!(c17_o4_q_ty10_n1, dec_body, 1, 10);
+dec!(c17_o4_t_ty10_n2, dec_body, 2, 10);
+dec!(c17_o4_q_ty10_n32, dec_body, 32, 10);
+dec!(c17_o4_q_ty10_n33, dec_body, 33, 10);
+dec!(c17_o4_q_ty10_n34, dec_body, 34, 10);
+dec!(c17_o4_q_ty0_n1, dec_body, 1, 0);
+dec!(c17_o4_t_ty0_n2, dec_body, 2, 0);
+dec!(c17_o4_q_ty0_n9, dec_body, 9, 0);
+dec!(c17_o4_t_ty0_n24, dec_body, 24, 0);
+dec!(c17_o4_q_ty18_n1, dec_body, 1, 18);
+dec!(c17_o4_t_ty18_n2, dec_body, 2, 18);
+dec!(c17_o4_q_ty18_n9, dec_body, 9, 18);
+dec!(c17_o4_t_ty18_n24, dec_body, 24, 18);
+dec!(c17_o4_q_ty255_n1, dec_body, 1, 255);
+dec!(c17_o4_t_ty255_n2, dec_body, 2, 255);
+dec!(c17_o4_q_ty255_n9, dec_body, 9, 255);
+dec!(c17_o4_t_ty255_n24, dec_body, 24, 255);
+dec!(c17_o4_q_ty3_n1, dec_body, 1, 3);
+dec!(c17_o4_t_ty3_n2, dec_body, 2, 3);
+dec!(c17_o4_q_ty3_n9, dec_body, 9, 3);
+dec!(c17_o4_t_ty3_n24, dec_body, 24, 3);
+dec!(c17_o4_q_ty15_n1, dec_body, 1, 15);
+dec!(c17_o4_q_ty15_n8, dec_body, 8, 15);
+dec!(c17_o4_q_ty15_n9_len0, dec_body_len, 9, 15, 5, 0u32);
+dec!(c17_o4_q_ty15_n10_len0, dec_body_len, 10, 15, 5, 0u32);
+dec!(c17_o4_t_ty15_n12_len0, dec_body_len, 12, 15, 5, 0u32);
+dec!(c17_o4_t_ty15_n9_len1, dec_body_len, 9, 15, 5, 1u32);
+dec!(c17_o4_t_ty15_n10_len1, dec_body_len, 10, 15, 5, 1u32);
+dec!(c17_o4_t_ty15_n11_len1, dec_body_len, 11, 15, 5, 1u32);
+dec!(c17_o4_t_ty15_n12_len1, dec_body_len, 12, 15, 5, 1u32);
+dec!(c17_o4_q_ty15_n9_len2, dec_body_len, 9, 15, 5, 2u32);
+dec!(c17_o4_t_ty15_n11_len2, dec_body_len, 11, 15, 5, 2u32);
+dec!(c17_o4_q_ty15_n12_len2, dec_body_len, 12, 15, 5, 2u32);
+dec!(c17_o4_t_ty15_n9_len3, dec_body_len, 9, 15, 5, 3u32);
+dec!(c17_o4_t_ty15_n12_len3, dec_body_len, 12, 15, 5, 3u32);
+dec!(c17_o4_t_ty15_n13_len3, dec_body_len, 13, 15, 5, 3u32);
+dec!(c17_o4_t_ty15_n9_len2147483648, dec_body_len, 9, 15, 5, 2147483648u32);
+dec!(c17_o4_t_ty15_n10_len2147483648, dec_body_len, 10, 15, 5, 2147483648u32);
+dec!(c17_o4_t_ty15_n12_len2147483648, dec_body_len, 12, 15, 5, 2147483648u32);
+dec!(c17_o4_q_ty15_n9_len4294967295, dec_body_len, 9, 15, 5, 4294967295u32);
+dec!(c17_o4_q_ty15_n10_len4294967295, dec_body_len, 10, 15, 5, 4294967295u32);
+dec!(c17_o4_t_ty15_n12_len4294967295, dec_body_len, 12, 15, 5, 4294967295u32);
+dec!(c17_o4_q_ty13_n1, dec_body, 1, 13);
+dec!(c17_o4_q_ty13_n8, dec_body, 8, 13);
+dec!(c17_o4_q_ty13_n9_len0, dec_body_len, 9, 13, 5, 0u32);
+dec!(c17_o4_q_ty13_n10_len0, dec_body_len, 10, 13, 5, 0u32);
+dec!(c17_o4_t_ty13_n12_len0, dec_body_len, 12, 13, 5, 0u32);
+dec!(c17_o4_t_ty13_n9_len1, dec_body_len, 9, 13, 5, 1u32);
+dec!(c17_o4_t_ty13_n10_len1, dec_body_len, 10, 13, 5, 1u32);
+dec!(c17_o4_t_ty13_n11_len1, dec_body_len, 11, 13, 5, 1u32);
+dec!(c17_o4_t_ty13_n12_len1, dec_body_len, 12, 13, 5, 1u32);
+dec!(c17_o4_q_ty13_n9_len2, dec_body_len, 9, 13, 5, 2u32);
+dec!(c17_o4_t_ty13_n11_len2, dec_body_len, 11, 13, 5, 2u32);
+dec!(c17_o4_q_ty13_n12_len2, dec_body_len, 12, 13, 5, 2u32);
+dec!(c17_o4_t_ty13_n9_len3, dec_body_len, 9, 13, 5, 3u32);
+dec!(c17_o4_t_ty13_n12_len3, dec_body_len, 12, 13, 5, 3u32);
+dec!(c17_o4_t_ty13_n13_len3, dec_body_len, 13, 13, 5, 3u32);
+dec!(c17_o4_t_ty13_n9_len2147483648, dec_body_len, 9, 13, 5, 2147483648u32);
+dec!(c17_o4_t_ty13_n10_len2147483648, dec_body_len, 10, 13, 5, 2147483648u32);
+dec!(c17_o4_t_ty13_n12_len2147483648, dec_body_len, 12, 13, 5, 2147483648u32);
+dec!(c17_o4_q_ty13_n9_len4294967295, dec_body_len, 9, 13, 5, 4294967295u32);
+dec!(c17_o4_q_ty13_n10_len4294967295, dec_body_len, 10, 13, 5, 4294967295u32);
+dec!(c17_o4_t_ty13_n12_len4294967295, dec_body_len, 12, 13, 5, 4294967295u32);
+dec!(c17_o4_q_ty14_n1, dec_body, 1, 14);
+dec!(c17_o4_q_ty14_n16, dec_body, 16, 14);
+dec!(c17_o4_q_ty14_n17_len0, dec_body_len, 17, 14, 13, 0u32);
+dec!(c17_o4_q_ty14_n18_len0, dec_body_len, 18, 14, 13, 0u32);
+dec!(c17_o4_t_ty14_n20_len0, dec_body_len, 20, 14, 13, 0u32);
+dec!(c17_o4_t_ty14_n17_len1, dec_body_len, 17, 14, 13, 1u32);
+dec!(c17_o4_t_ty14_n18_len1, dec_body_len, 18, 14, 13, 1u32);
+dec!(c17_o4_t_ty14_n19_len1, dec_body_len, 19, 14, 13, 1u32);
+dec!(c17_o4_t_ty14_n20_len1, dec_body_len, 20, 14, 13, 1u32);
+dec!(c17_o4_q_ty14_n17_len2, dec_body_len, 17, 14, 13, 2u32);
+dec!(c17_o4_t_ty14_n19_len2, dec_body_len, 19, 14, 13, 2u32);
+dec!(c17_o4_q_ty14_n20_len2, dec_body_len, 20, 14, 13, 2u32);
+dec!(c17_o4_t_ty14_n17_len3, dec_body_len, 17, 14, 13, 3u32);
+dec!(c17_o4_t_ty14_n20_len3, dec_body_len, 20, 14, 13, 3u32);
+dec!(c17_o4_t_ty14_n21_len3, dec_body_len, 21, 14, 13, 3u32);
+dec!(c17_o4_t_ty14_n17_len2147483648, dec_body_len, 17, 14, 13, 2147483648u32);
+dec!(c17_o4_t_ty14_n18_len2147483648, dec_body_len, 18, 14, 13, 2147483648u32);
+dec!(c17_o4_t_ty14_n20_len2147483648, dec_body_len, 20, 14, 13, 2147483648u32);
+dec!(c17_o4_q_ty14_n17_len4294967295, dec_body_len, 17, 14, 13, 4294967295u32);
+dec!(c17_o4_q_ty14_n18_len4294967295, dec_body_len, 18, 14, 13, 4294967295u32);
+dec!(c17_o4_t_ty14_n20_len4294967295, dec_body_len, 20, 14, 13, 4294967295u32);
+dec!(c17_o4_q_ty11_n1, dec_body, 1, 11);
+dec!(c17_o4_q_ty11_n8, dec_body, 8, 11);
+dec!(c17_o4_q_ty11_n9_len0, dec_body_len, 9, 11, 5, 0u32);
+dec!(c17_o4_t_ty11_n10_len0, dec_body_len, 10, 11, 5, 0u32);
+dec!(c17_o4_a_ty11_n12_len0, dec_body_len, 12, 11, 5, 0u32);
+dec!(c17_o4_t_ty11_n9_len1, dec_body_len, 9, 11, 5, 1u32);
+dec!(c17_o4_t_ty11_n10_len1, dec_body_len, 10, 11, 5, 1u32);
+dec!(c17_o4_t_ty11_n11_len1, dec_body_len, 11, 11, 5, 1u32);
+dec!(c17_o4_a_ty11_n12_len1, dec_body_len, 12, 11, 5, 1u32);
+dec!(c17_o4_q_ty11_n9_len2, dec_body_len, 9, 11, 5, 2u32);
+dec!(c17_o4_t_ty11_n11_len2, dec_body_len, 11, 11, 5, 2u32);
+dec!(c17_o4_t_ty11_n12_len2, dec_body_len, 12, 11, 5, 2u32);
+dec!(c17_o4_t_ty11_n9_len3, dec_body_len, 9, 11, 5, 3u32);
+dec!(c17_o4_t_ty11_n12_len3, dec_body_len, 12, 11, 5, 3u32);
+dec!(c17_o4_t_ty11_n13_len3, dec_body_len, 13, 11, 5, 3u32);
+dec!(c17_o4_t_ty11_n9_len2147483648, dec_body_len, 9, 11, 5, 2147483648u32);
+dec!(c17_o4_t_ty11_n10_len2147483648, dec_body_len, 10, 11, 5, 2147483648u32);
+dec!(c17_o4_a_ty11_n12_len2147483648, dec_body_len, 12, 11, 5, 2147483648u32);
+dec!(c17_o4_q_ty11_n9_len4294967295, dec_body_len, 9, 11, 5, 4294967295u32);
+dec!(c17_o4_t_ty11_n10_len4294967295, dec_body_len, 10, 11, 5, 4294967295u32);
+dec!(c17_o4_a_ty11_n12_len4294967295, dec_body_len, 12, 11, 5, 4294967295u32);
+dec!(c17_o4_q_ty12_n1, dec_body, 1, 12);
+dec!(c17_o4_q_ty12_n16, dec_body, 16, 12);
+dec!(c17_o4_q_ty12_n17_len0, dec_body_len, 17, 12, 13, 0u32);
+dec!(c17_o4_t_ty12_n18_len0, dec_body_len, 18, 12, 13, 0u32);
+dec!(c17_o4_a_ty12_n20_len0, dec_body_len, 20, 12, 13, 0u32);
+dec!(c17_o4_t_ty12_n17_len1, dec_body_len, 17, 12, 13, 1u32);
+dec!(c17_o4_t_ty12_n18_len1, dec_body_len, 18, 12, 13, 1u32);
+dec!(c17_o4_t_ty12_n19_len1, dec_body_len, 19, 12, 13, 1u32);
+dec!(c17_o4_a_ty12_n20_len1, dec_body_len, 20, 12, 13, 1u32);
+dec!(c17_o4_q_ty12_n17_len2, dec_body_len, 17, 12, 13, 2u32);
+dec!(c17_o4_t_ty12_n19_len2, dec_body_len, 19, 12, 13, 2u32);
+dec!(c17_o4_t_ty12_n20_len2, dec_body_len, 20, 12, 13, 2u32);
+dec!(c17_o4_t_ty12_n17_len3, dec_body_len, 17, 12, 13, 3u32);
+dec!(c17_o4_t_ty12_n20_len3, dec_body_len, 20, 12, 13, 3u32);
+dec!(c17_o4_t_ty12_n21_len3, dec_body_len, 21, 12, 13, 3u32);
+dec!(c17_o4_t_ty12_n17_len2147483648, dec_body_len, 17, 12, 13, 2147483648u32);
+dec!(c17_o4_t_ty12_n18_len2147483648, dec_body_len, 18, 12, 13, 2147483648u32);
+dec!(c17_o4_a_ty12_n20_len2147483648, dec_body_len, 20, 12, 13, 2147483648u32);
+dec!(c17_o4_q_ty12_n17_len4294967295, dec_body_len, 17, 12, 13, 4294967295u32);
+dec!(c17_o4_t_ty12_n18_len4294967295, dec_body_len, 18, 12, 13, 4294967295u32);
+dec!(c17_o4_a_ty12_n20_len4294967295, dec_body_len, 20, 12, 13, 4294967295u32);
+dec!(c17_o4_q_ty9_n1, dec_body, 1, 9);
+dec!(c17_o4_q_ty9_n28, dec_body, 28, 9);
+dec!(c17_o4_q_ty9_n29, dec_body, 29, 9);
+dec!(c17_o4_q_ty9_n29_count0, dec_body_len, 29, 9, 9, 0u32);
+dec!(c17_o4_q_ty9_n30_count0, dec_body_len, 30, 9, 9, 0u32);
+dec!(c17_o4_q_ty9_n29_count1, dec_body_len, 29, 9, 9, 1u32);
+dec!(c17_o4_q_ty9_n36_count1, dec_body_len, 36, 9, 9, 1u32);
+dec!(c17_o4_q_ty9_n37_count1, dec_body_len, 37, 9, 9, 1u32);
+dec!(c17_o4_q_ty9_n44_count1, dec_body_len, 44, 9, 9, 1u32);
+dec!(c17_o4_q_ty9_n45_count1, dec_body_len, 45, 9, 9, 1u32);
+dec!(c17_o4_q_ty9_n46_count1, dec_body_len, 46, 9, 9, 1u32);
+dec!(c17_o4_t_ty9_n29_count2, dec_body_len, 29, 9, 9, 2u32);
+dec!(c17_o4_t_ty9_n52_count2, dec_body_len, 52, 9, 9, 2u32);
+dec!(c17_o4_t_ty9_n53_count2, dec_body_len, 53, 9, 9, 2u32);
+dec!(c17_o4_t_ty9_n60_count2, dec_body_len, 60, 9, 9, 2u32);
+dec!(c17_o4_t_ty9_n61_count2, dec_body_len, 61, 9, 9, 2u32);
+dec!(c17_o4_t_ty9_n62_count2, dec_body_len, 62, 9, 9, 2u32);
+dec!(c17_o4_q_ty9_n29_count4294967295, dec_body_len, 29, 9, 9, 4294967295u32);
+dec!(c17_o4_q_ty9_n45_count4294967295, dec_body_len, 45, 9, 9, 4294967295u32);
